@@ -50,6 +50,9 @@ func (m *SimpleModulus) UnmarshalCBOR(data []byte) error {
 	if err != nil {
 		return errs.Wrap(err)
 	}
+	if dto.Modulus == nil {
+		return ErrFailed.WithMessage("SimpleModulus: modulus is missing")
+	}
 	m.m = dto.Modulus
 	return nil
 }
@@ -76,6 +79,9 @@ func (m *OddPrimeFactors) UnmarshalCBOR(data []byte) error {
 	if err != nil {
 		return errs.Wrap(err)
 	}
+	if dto.P == nil || dto.Q == nil {
+		return ErrFailed.WithMessage("OddPrimeFactors: p or q is missing")
+	}
 	out, ok := NewOddPrimeFactors(dto.P, dto.Q)
 	if ok == ct.False {
 		return ErrFailed.WithMessage("failed to create OddPrimeFactors")
@@ -100,6 +106,9 @@ func (m *OddPrimeSquareFactors) UnmarshalCBOR(data []byte) error {
 	dto, err := serde.UnmarshalCBOR[pairDTO](data)
 	if err != nil {
 		return errs.Wrap(err)
+	}
+	if dto.P == nil || dto.Q == nil {
+		return ErrFailed.WithMessage("OddPrimeSquareFactors: p or q is missing")
 	}
 	out, ok := NewOddPrimeSquareFactors(dto.P, dto.Q)
 	if ok == ct.False {
